@@ -4,6 +4,7 @@ import Bmc.Proofs.C17.Sess
 import Bmc.Proofs.C17.Sdr
 import Bmc.Proofs.C17.Setup
 import Bmc.Proofs.C17.Dcmi
+import Bmc.Proofs.GenDec
 #print axioms Bmc.Proofs.C17.deviceID_reuse
 #print axioms Bmc.Proofs.C17.chassis_reuse
 #print axioms Bmc.Proofs.C17.message_reuse
@@ -34,3 +35,30 @@ import Bmc.Proofs.C17.Dcmi
 #print axioms Bmc.Proofs.C17.dcmiCap5_reuse
 #print axioms Bmc.Proofs.C17.powerReading_reuse
 #print axioms Bmc.Proofs.C17.sensorInfo_reuse
+#print axioms Bmc.Proofs.GenDec.translated_ok
+#print axioms Bmc.Proofs.GenDec.ReserveSDRRepositoryRsp_gen_eq
+#print axioms Bmc.Proofs.GenDec.GetSystemGUIDRsp_gen_eq
+#print axioms Bmc.Proofs.GenDec.SetSessionPrivilegeLevelRsp_gen_eq
+#print axioms Bmc.Proofs.GenDec.GetSDRRsp_gen_eq
+#print axioms Bmc.Proofs.GenDec.SDR_gen_eq
+#print axioms Bmc.Proofs.GenDec.GetSensorReadingRsp_gen_eq
+#print axioms Bmc.Proofs.GenDec.GetChannelCipherSuitesRsp_gen_eq
+#print axioms Bmc.Proofs.GenDec.GetChannelAuthenticationCapabilitiesRsp_gen_eq
+#print axioms Bmc.Proofs.GenDec.GetSDRRepositoryInfoRsp_gen_eq
+#print axioms Bmc.Proofs.GenDec.GetPowerReadingRsp_gen_eq
+#print axioms Bmc.Proofs.GenDec.GetChassisStatusRsp_gen_eq
+#print axioms Bmc.Proofs.GenDec.GetDeviceIDRsp_gen_eq
+#print axioms Bmc.Proofs.GenDec.RAKPMessage4_gen_eq
+#print axioms Bmc.Proofs.GenDec.RAKPMessage2_gen_eq
+#print axioms Bmc.Proofs.GenDec.RAKPMessage1_gen_eq
+#print axioms Bmc.Proofs.GenDec.V1Session_gen_eq
+#print axioms Bmc.Proofs.GenDec.GetSessionInfoRsp_gen_eq
+#print axioms Bmc.Proofs.GenDec.OpenSessionRsp_gen_eq
+#print axioms Bmc.Proofs.GenDec.GetDCMICapabilitiesInfoManageabilityAccessAttrsRsp_gen_eq
+#print axioms Bmc.Proofs.GenDec.GetDCMICapabilitiesInfoOptionalPlatformAttrsRsp_gen_eq
+#print axioms Bmc.Proofs.GenDec.GetDCMICapabilitiesInfoSupportedCapabilitiesRsp_gen_eq
+#print axioms Bmc.Proofs.GenDec.GetDCMICapabilitiesInfoMandatoryPlatformAttrsRsp_gen_eq
+#print axioms Bmc.Proofs.GenDec.SessionSelector_gen_eq
+#print axioms Bmc.Proofs.GenDec.Message_gen_eq
+#print axioms Bmc.Proofs.GenDec.GetDCMICapabilitiesInfoEnhancedSystemPowerStatisticsAttrsRsp_gen_eq
+#print axioms Bmc.Proofs.GenDec.GetDCMISensorInfoRsp_gen_eq
